@@ -1,4 +1,4 @@
-use crate::{BasicData, BasicDataCustom, BasicGarnishData, BasicNumber, DataError, basic::companion::BasicDataCompanion};
+use crate::{BasicData, BasicDataCustom, BasicGarnishData, BasicNumber, DataError, basic::companion::BasicDataCompanion, basic::garnish::conversions::MAX_CONVERSION_DEPTH};
 
 impl<T, Companion> BasicGarnishData<T, Companion>
 where
@@ -6,6 +6,14 @@ where
     Companion: BasicDataCompanion<T>,
 {
     pub(crate) fn convert_basic_data_at_to_bytes(&mut self, from: usize) -> Result<Vec<u8>, DataError> {
+        self.convert_basic_data_at_to_bytes_at_depth(from, 0)
+    }
+
+    fn convert_basic_data_at_to_bytes_at_depth(&mut self, from: usize, depth: usize) -> Result<Vec<u8>, DataError> {
+        if depth >= MAX_CONVERSION_DEPTH {
+            return Ok(vec![]);
+        }
+
         Ok(match self.get_from_data_block_ensure_index(from)? {
             BasicData::Unit => vec![],
             BasicData::True => 1u8.to_le_bytes().to_vec(),
@@ -57,7 +65,7 @@ where
 
                 for i in start..end {
                     let item = self.get_from_data_block_ensure_index(i)?.as_list_item()?;
-                    let b = self.convert_basic_data_at_to_bytes(item)?;
+                    let b = self.convert_basic_data_at_to_bytes_at_depth(item, depth + 1)?;
                     bytes.extend(b);
                 }
 
